@@ -65,7 +65,8 @@ CONSTANTS
   ResetChangesPerJob, MissListSquared, KeepMissedAcrossSteps,   \* D6, D5, D6b as coded
   PriorityToAllEngines,                                         \* D1 as coded
   PruneKeepsEqual,                                              \* D3 as coded
-  PartialCommit       \* hypothetical: a failing commit leaves the truth rows of the step behind
+  PartialCommit,      \* hypothetical: a failing commit leaves the truth rows of the step behind
+  UpdateTouchesTruth  \* hypothetical: merging an estimate update writes the target's truth epoch
 
 None     == "none"
 NoChange == <<0, "none">>       \* sensor not mentioned in sensor_changes
@@ -362,7 +363,7 @@ Decide ==
 CompleteExec(t, slewT, hitT, ser) ==
   /\ pc = "exec" /\ t \in pend
   /\ slewT \subseteq TaskedOf(decision, t) /\ hitT \subseteq slewT
-  /\ ser \subseteq (targets \ {t}) \X TaskedOf(decision, t)
+  /\ ser \subseteq (targets \ {t}) \X slewT      \* serendipitous observations only about a pointing that was reached
   /\ (~WithSerendipity => ser = {})
   /\ slewOK' = slewOK \cup {<<t, s>> : s \in slewT}
   /\ hit' = hit \cup {<<t, s>> : s \in hitT}
@@ -418,7 +419,8 @@ CompleteUpdate(t) ==
   /\ pc = "update" /\ t \in pend
   /\ estAt' = [estAt EXCEPT ![t] = <<@[1], "upd">>]
   /\ pend' = pend \ {t}
-  /\ UNCHANGED <<k, pc, eng, todo, targets, sensors, engT, engS, truthAt, estObs, visM, decision, slewOK, hit, obsStep,
+  /\ truthAt' = IF UpdateTouchesTruth /\ estObs[t] # {} THEN [truthAt EXCEPT ![t] = 0] ELSE truthAt
+  /\ UNCHANGED <<k, pc, eng, todo, targets, sensors, engT, engS, estObs, visM, decision, slewOK, hit, obsStep,
                  missStep, missHeld, changes, pointing, savedObs, savedMiss, db, alive,
                  delivered, handled, queue, estQueue, applied, appliedEst, biasQ>>
 
